@@ -81,29 +81,42 @@ func TestMC(t *testing.T) {
 		alphabet = sc.passwords()
 		h := ps.harness(sc)
 		var pruned, full map[string]int
-		for _, o := range ps.modes(sc, ev.Thorough()) {
-			o.Deadline = deadline
-			o.Report = reporter(ev, sc, modeName(o), o.Order)
-			t0 := time.Now()
-			st := mc.Explore(h, o)
-			ev.Add("evaluations", st.Executions)
-			ev.Add("transitions", st.Transitions)
-			ev.Add("states", st.States)
-			ev.Add("traces_validated_against_impl", st.Executions) // every execution runs the real (rewritten) agent code
-			for k := range st.Terminal {
-				ev.Distinct(sc.Name + "|" + k)
+		nvar := 1
+		if sc.Name == "eligibility" {
+			nvar = eligVariants
+		}
+		for vi := 0; vi < nvar; vi++ {
+			if sc.Name == "eligibility" {
+				eligSet(vi)
 			}
-			if !st.Complete {
-				ev.NotExhaustive(fmt.Sprintf("scenario %s mode %s stopped by its deadline/step horizon after %d executions", sc.Name, modeName(o), st.Executions))
+			for _, o := range ps.modes(sc, ev.Thorough()) {
+				o.Deadline = deadline
+				o.Report = reporter(ev, sc, modeName(o), o.Order)
+				t0 := time.Now()
+				st := mc.Explore(h, o)
+				ev.Add("evaluations", st.Executions)
+				ev.Add("transitions", st.Transitions)
+				ev.Add("states", st.States)
+				ev.Add("traces_validated_against_impl", st.Executions) // every execution runs the real (rewritten) agent code
+				for k := range st.Terminal {
+					ev.Distinct(sc.Name + "|" + k)
+				}
+				if !st.Complete {
+					ev.NotExhaustive(fmt.Sprintf("scenario %s mode %s stopped by its deadline/step horizon after %d executions", sc.Name, modeName(o), st.Executions))
+				}
+				if o.Prune {
+					pruned = st.Terminal
+				} else if o.Bound < 0 {
+					full = st.Terminal
+				}
+				if vi == 0 || st.Violations > 0 {
+					fmt.Printf("MC %s %s %s: executions=%d transitions=%d states=%d cuts=%d maxdepth=%d terminal=%d outcomes=%v complete=%v viol=%d %.1fs\n",
+						prop, sc.Name, modeName(o), st.Executions, st.Transitions, st.States, st.Cuts, st.MaxDepth, len(st.Terminal), st.Outcomes, st.Complete, st.Violations, time.Since(t0).Seconds())
+				}
+				if vi == 0 {
+					rules = append(rules, fmt.Sprintf("%s[%s]", sc.Name, modeName(o)))
+				}
 			}
-			if o.Prune {
-				pruned = st.Terminal
-			} else if o.Bound < 0 {
-				full = st.Terminal
-			}
-			fmt.Printf("MC %s %s %s: executions=%d transitions=%d states=%d cuts=%d maxdepth=%d terminal=%d outcomes=%v complete=%v viol=%d %.1fs\n",
-				prop, sc.Name, modeName(o), st.Executions, st.Transitions, st.States, st.Cuts, st.MaxDepth, len(st.Terminal), st.Outcomes, st.Complete, st.Violations, time.Since(t0).Seconds())
-			rules = append(rules, fmt.Sprintf("%s[%s]", sc.Name, modeName(o)))
 		}
 		// guard against a wrong state key: pruned and un-pruned unbounded runs of the same
 		// scenario must reach the same set of terminal observations
